@@ -529,9 +529,38 @@ class M(Model):
     def crowd_step(self, s, episode_seed, r=0):
         """Driver hook for the 'crowd' plan mode: a short list of hub cells per episode (from the reset key)."""
         hubs = [((int(episode_seed[0]) + 3 * i) % self.G, (int(episode_seed[1]) + 5 * i + 1) % self.G) for i in range(4)]
-        return self.crowd_action(s, hubs)
+        want = 4 if (int(episode_seed[0]) + int(episode_seed[1])) % 2 else 3
+        if want == 4 and self.A >= 4:
+            best = self._meeting_cell(s, want)
+            if best is not None:
+                hubs = [best] + hubs
+        return self.crowd_action(s, hubs, want=want)
 
-    def crowd_action(self, s, hub):
+    def _meeting_cell(self, s, want):
+        """An empty cell with `want` usable neighbours (empty, or already holding a live agent's head) that is closest,
+        in summed Manhattan distance, to the `want` nearest live agents: where a four-way collision can be staged."""
+        pos, tgt, _, _ = self._tab(s)
+        g = np.asarray(s.grid)
+        live = [k for k in range(self.A) if not (pos[k] == tgt[k]).all() and self._inside(pos[k])]
+        if len(live) < want:
+            return None
+        heads = {tuple(pos[k].tolist()) for k in live}
+        best, best_cost = None, None
+        for r in range(self.G):
+            for c in range(self.G):
+                if int(g[r, c]) != 0:
+                    continue
+                nb = [(r - 1, c), (r + 1, c), (r, c - 1), (r, c + 1)]
+                usable = [q for q in nb if self._inside(q) and (int(g[q]) == 0 or q in heads)]
+                if len(usable) < want:
+                    continue
+                d = sorted(abs(int(pos[k][0]) - r) + abs(int(pos[k][1]) - c) for k in live)[:want]
+                cost = (sum(d), r, c)
+                if best_cost is None or cost < best_cost:
+                    best, best_cost = (r, c), cost
+        return best
+
+    def crowd_action(self, s, hub, want=3):
         """Adversarial policy: agents gather around the first still empty cell of the list `hub` and then enter
         it in the same step (collision of up to four agents).  Falls back to the solver when no hub is left."""
         pos, tgt, _, _ = self._tab(s)
@@ -544,7 +573,8 @@ class M(Model):
         act = np.zeros(self.A, np.int64)
         live = [k for k in range(self.A) if not (pos[k] == tgt[k]).all() and self._inside(pos[k])]
         near = [k for k in live if _adjacent(tuple(pos[k].tolist()), hub)]
-        if len(near) >= min(3, len(live)) or int(s.step_count) >= 2 * self.G:
+        # `want` agents enter the hub in the same step (a cell has four neighbours: up to a four-way collision)
+        if len(near) >= min(want, len(live)) or int(s.step_count) >= 2 * self.G:
             for k in near:
                 act[k] = _CODE[(hub[0] - int(pos[k][0]), hub[1] - int(pos[k][1]))]
             return act
